@@ -267,6 +267,10 @@ func rsJudgeTrace(trace string, startUnix, endUnix int64) rsVerdict {
 					notePlain(mid, s)
 				}
 			}
+		case "J":
+			// a frame of the transport level that is no sealed message (error code, too short, another key id):
+			// reported (one warning), nothing else
+			v.warnings++
 		case "H":
 			if strings.Join(p[1:], ":") == rsUpdDump {
 				seenUpd++
